@@ -221,6 +221,14 @@ func checkBF16Code(code uint16) vt.Verdict {
 	if d := core.DecodeBFloat16(enc); uint16(d) != code {
 		return vt.Bad("bf16: Decode(Encode(%#04x)) = %#04x", code, uint16(d))
 	}
+	// encodings are collected element by element before they are used: a later Encode must leave an earlier result alone
+	other := core.BFloat16(^code).Encode()
+	if len(enc) != 2 || enc[0] != byte(code) || enc[1] != byte(code>>8) {
+		return vt.Bad("bf16: the bytes returned by Encode(%#04x) changed to %x when %#04x was encoded afterwards", code, enc, ^code)
+	}
+	if d := core.DecodeBFloat16(other); uint16(d) != ^code {
+		return vt.Bad("bf16: Decode(Encode(%#04x)) = %#04x", ^code, uint16(d))
+	}
 	return vt.Pass()
 }
 
